@@ -579,6 +579,50 @@ macro_rules! with_kind {
 }
 
 // ------------------------------------------------------------------------------------------
+// two types with one name
+
+struct TwinVt {
+    name: &'static str,
+    set: fn(&mut Message, u32),
+    read: fn(&Message) -> Option<u32>,
+    can: fn(&Message) -> bool,
+}
+
+fn twin_ops() -> [TwinVt; 2] {
+    let a = {
+        #[derive(Debug, Clone)]
+        struct Twin(u32);
+        impl MessageBody for Twin {
+            fn byte_len(&self) -> usize {
+                4
+            }
+        }
+        TwinVt {
+            name: std::any::type_name::<Twin>(),
+            set: |m, v| m.set_content(Twin(v)),
+            read: |m| m.try_content::<Twin>().map(|t| t.0),
+            can: |m| m.can_cast::<Twin>(),
+        }
+    };
+    let b = {
+        #[derive(Debug, Clone)]
+        struct Twin(u32);
+        impl MessageBody for Twin {
+            fn byte_len(&self) -> usize {
+                4
+            }
+        }
+        TwinVt {
+            name: std::any::type_name::<Twin>(),
+            set: |m, v| m.set_content(Twin(v)),
+            read: |m| m.try_content::<Twin>().map(|t| t.0),
+            can: |m| m.can_cast::<Twin>(),
+        }
+    };
+    [a, b]
+}
+
+// ------------------------------------------------------------------------------------------
 // case
 
 #[derive(Clone, Debug, Serialize, Deserialize)]
@@ -594,6 +638,9 @@ pub enum Op {
     Length { slot: u8 },
     Drop { slot: u8 },
     ClearBody { slot: u8 },
+    /// two distinct types that print the same `type_name` (both called `Twin`, declared in different blocks of one
+    /// function, same layout): a body of one of them is not a body of the other
+    TwinProbe { first: bool, v: u32 },
 }
 
 #[derive(Clone, Debug, Serialize, Deserialize)]
@@ -688,6 +735,7 @@ pub fn run_case(case: &Case) -> Result<(bool, Vec<&'static str>), Failure> {
     ZST_CREATED.with(|z| *z.borrow_mut() = (0, 0));
     let mut msgs: Vec<Option<Message>> = (0..SLOTS).map(|_| None).collect();
     let mut model: Vec<Option<Option<ModelBody>>> = vec![None; SLOTS]; // Some(None): message without body
+    let mut twins = 0u32;
     let mut f_failed_impostor = false;
     let mut f_read_after_failed = false;
     let mut f_clone = false;
@@ -726,6 +774,27 @@ pub fn run_case(case: &Case) -> Result<(bool, Vec<&'static str>), Failure> {
                     seed: *seed,
                     clonable: !nonclon,
                 }));
+            }
+            Op::TwinProbe { first, v } => {
+                twins += 1;
+                let ops = twin_ops();
+                let (own, other) = if *first { (&ops[0], &ops[1]) } else { (&ops[1], &ops[0]) };
+                let mut m = Message::default();
+                (own.set)(&mut m, *v);
+                let (can_other, read_other, can_own, read_own) = ((other.can)(&m), (other.read)(&m), (own.can)(&m), (own.read)(&m));
+                vensure!(
+                    !can_other && read_other.is_none(),
+                    "cast-to-wrong-type-succeeded",
+                    "step {step}: a body of one type named {} was accepted as the other type of the same name (can_cast {can_other}, try_content {read_other:?})",
+                    own.name
+                );
+                vensure!(
+                    can_own && read_own == Some(*v),
+                    "value-changed",
+                    "step {step}: a body of type {} = {v} reads back as {read_own:?} (can_cast {can_own})",
+                    own.name
+                );
+                vensure!(own.name == other.name, "harness-twin-names", "the two probe types print different names: {} / {}", own.name, other.name);
             }
             Op::ClearBody { slot } => {
                 let s = *slot as usize % SLOTS;
@@ -921,6 +990,9 @@ pub fn run_case(case: &Case) -> Result<(bool, Vec<&'static str>), Failure> {
     if f_droppable {
         labels.push("droppable-body");
     }
+    if twins > 0 {
+        labels.push("two-types-with-one-type-name");
+    }
     Ok((f_failed_impostor && f_read_after_failed && f_clone && f_droppable, labels))
 }
 
@@ -976,6 +1048,7 @@ impl Prop for C16 {
             2 => slot.clone().prop_map(|slot| Op::Length { slot }),
             1 => slot.clone().prop_map(|slot| Op::Drop { slot }),
             1 => slot.prop_map(|slot| Op::ClearBody { slot }),
+            1 => (any::<bool>(), any::<u32>()).prop_map(|(first, v)| Op::TwinProbe { first, v }),
         ];
         proptest::collection::vec(op, 0..max).prop_map(|ops| Case { ops }).boxed()
     }
